@@ -1,6 +1,8 @@
 """Text layer of the rule serialiser and parser (send_rrul / snarf_rrule) against Echse.Model.RrText: the same rule
 texts (well-formed, hostile, mutated) are parsed by both, the structs obtained are printed by both, and the real
 code's print-then-parse is the identity on them.  Generators by the C05 text-layer worker (tools/rrtextprobe.py)."""
+import re
+
 from . import common, rrgen
 from .p_C09 import hostile_rule
 from .p_C16 import gen_ext
@@ -113,7 +115,15 @@ def run_layer(ctx, exe, rng, n):
             body = b""
         rt_ops.append("r.parse " + body.hex())
     a3, st3, _ = ctx.impl(exe, rt_ops)
+    def until_ok(s):
+        # iCalendar writes DATE or DATE-TIME values without fractions of a second; an UNTIL with milliseconds (dt_strp reads
+        # `.123' as an extension) has no text of its own and is outside the round trip (Lean: UntilOk)
+        m = re.search(r"until=([0-9a-f]{16})", s)
+        if not m:
+            return False
+        u = int(m.group(1), 16)
+        return u != 0 and (((u >> 24) & 0xff) == 0xff or (u & 0x3ff) == 0x3ff)
     changed = [(s, bytes.fromhex(o.split()[1]).decode("latin-1"), y) for s, o, y in zip(structs, rt_ops, a3)
-               if s != y and "until=0000000000000000" not in s and " count=0 " not in s and "until=" in s]
+               if s != y and until_ok(s) and " count=0 " not in s]
     return {"parse_ops": len(ops), "print_ops": len(ops2), "diffs": d, "ub": ub, "changed": changed, "texts": texts,
             "status": (st, st2, st3)}
